@@ -52,7 +52,7 @@ def main():
         meta["demo_with_change"] = rc1
         meta["demo_output_with_change"] = o1[-600:]
         if not skip_suite:
-            rc2, o2 = sh(f"{PY} -m pytest -q -p no:cacheprovider -n 8 --timeout=900 "
+            rc2, o2 = sh(f"{PY} -m pytest -q -p no:cacheprovider -n 4 --timeout=900 "
                          f"--ignore=tests/test_oneMKL_PARDISO_interface.py", cwd=wt, env=env)
             meta["suite_with_change"] = o2.strip().splitlines()[-1] if o2.strip() else str(rc2)
             meta["suite_rc"] = rc2
